@@ -53,8 +53,8 @@ class C08(Prop):
         "Local.start/kill/stop/returncode/process_is_finished themselves (real-child runs only)",
         "wall-clock bounds: the model counts main-thread steps and expired 1 s joins, not seconds",
         "KeyboardInterrupt while the main thread is inside a join (it propagates out of _finish's finally block "
-        "and leaves the remaining workers unjoined) -- only interrupts inside wait() and right after the reaping "
-        "poll are modelled",
+        "and leaves the remaining workers unjoined: finding F-C08g, witnessed on the real runner only) -- only "
+        "interrupts inside wait() and right after the reaping poll are events of the model",
     ]
 
     phases = None
@@ -317,6 +317,25 @@ except BaseException as e:
 '''
 
 
+SANDBOX_G = r'''
+import os, sys, signal, threading, time
+sys.path.insert(0, %r)
+from invoke import Context
+from invoke.runners import Local
+me = os.getpid()
+threading.Timer(1.0, lambda: os.kill(me, signal.SIGINT)).start()
+r = Local(Context())
+t0 = time.time()
+try:
+    res = r.run("echo hi; (sleep 3 &); exit 0", hide=True, in_stream=False)
+    print("RETURNED", res.exited, round(time.time() - t0, 1), flush=True)
+except BaseException as e:
+    alive = sorted(t.kwargs["target"].__name__ for t in r.threads.values() if t.is_alive())
+    print("RAISED %%s after %%.1fs alive=%%s" %% (type(e).__name__, time.time() - t0, alive), flush=True)
+os._exit(0)
+'''
+
+
 SANDBOX_F = r'''
 import os, sys, tempfile
 sys.path.insert(0, %r)
@@ -441,6 +460,23 @@ def real_findings(tier, budget):
     elif leaked or z1:
         fails.append({"case": {"disown": True, "pty": True, "runs": 6},
                       "what": "pty descriptors left open %d, zombies %d" % (len(leaked), len(z1))})
+
+    # F-C08g: ^C while the main thread is inside the worker joins (the command has exited, a descendant
+    # still holds the pipes): not forwarded, propagates out of run(), workers left unjoined
+    evals += 1
+    try:
+        p = subprocess.run([sys.executable, "-c", SANDBOX_G % core.REPO], capture_output=True, text=True, timeout=30)
+        out = p.stdout
+    except subprocess.TimeoutExpired:
+        out = "TIMEOUT"
+    if "RETURNED" in out:
+        pass
+    elif "RAISED KeyboardInterrupt" in out and "alive=[]" not in out:
+        fails.append({"case": {"cmd": "echo hi; (sleep 3 &); exit 0", "SIGINT": "1 s after start, during join"},
+                      "finding": "F-C08g", "what": out.strip()[:200]})
+    else:
+        fails.append({"case": {"cmd": "echo hi; (sleep 3 &); exit 0", "SIGINT": "during join"},
+                      "what": "unexpected behaviour: %r" % out[:300]})
 
     # F-C08f: pty=True while sys.stdout is a real file object that is not fd 1
     evals += 1
